@@ -316,7 +316,6 @@ void Server::Private::run()
         }
       }
 
-      if (_interrupted)
       {
         Mutex::Guard guard(_interruptMutex);
         if (_interrupted)
